@@ -265,6 +265,16 @@ class Verdict:
             for v in self.violations[:5]:
                 print(f"  violation: {v['signature']} features={json.dumps(v['features'], sort_keys=True)}")
             print(f"VIOLATION property={self.pid} replay={replay}")
+        from collections import Counter
+        summ = Counter()
+        for x in self.violations:
+            fs = x["features"]
+            small = {k: fs[k] for k in fs if isinstance(fs[k], (str, int, bool)) and fs[k] not in (False, None, "")}
+            summ[x["signature"] + " " + json.dumps(small, sort_keys=True)] += 1
+        self.cov["violation_summary"] = [f"{n} x {k}" for k, n in summ.most_common(40)]
+        if os.environ.get("VERIF_DEBUG") and self.violations:
+            for k, n in summ.most_common(60):
+                print(f"  [summary] {n} x {k}", file=sys.stderr)
         ev = {
             "property_id": self.pid,
             "tier": self.tier,
